@@ -18,11 +18,12 @@ CONFIGS = {
     'quick': [('electricity', 2, 2, 1, {}), ('direct-use', 2, 2, 1, {'em': 1}), ('chiller', 2, 1, 1, {'em': 3}), ('heat-pump', 2, 2, 2, {}), ('district-heating', 2, 1, 1, {}),
               ('cogen-topping', 2, 2, 1, {'em': 3, 'carbon': True}), ('cogen-bottoming', 2, 1, 2, {}), ('cogen-parallel', 2, 2, 1, {'em': 1}),
               ('electricity', 3, 2, 1, {'overpressure': True}), ('electricity', 2, 1, 1, {'segments': 3, 'ramey': False, 'pi': True, 'alt': True}), ('direct-use', 2, 1, 1, {'splitwell': True}), ('direct-use', 2, 1, 1, {'sdac': True}),
-              ('direct-use', 2, 1, 1, {'fixed_totals': True}), ('electricity', 2, 1, 1, {'fixed_om': True})],
+              ('direct-use', 2, 1, 1, {'fixed_totals': True}), ('electricity', 2, 1, 1, {'fixed_om': True}), ('direct-use', 3, 2, 1, {'fixed_totals': True, 'redrill': True})],
     'thorough': [(k, L, T, K, x) for k in c04.KINDS for (L, T, K) in ((2, 2, 1), (3, 1, 2), (4, 3, 3)) for x in ({}, {'em': 1}, {'em': 3, 'carbon': True})] +
                 [('electricity', 3, 2, 1, {'overpressure': True}), ('electricity', 2, 1, 1, {'segments': 3, 'ramey': False, 'pi': True}),
                  ('direct-use', 3, 2, 1, {'overpressure': True, 'pi': True}), ('direct-use', 2, 1, 1, {'splitwell': True}), ('electricity', 2, 2, 2, {'splitwell': True, 'em': 3}), ('direct-use', 2, 1, 1, {'sdac': True}), ('electricity', 3, 2, 2, {'sdac': True}), ('electricity', 2, 2, 1, {'resmodel': 1}), ('direct-use', 2, 2, 1, {'resmodel': 3}),
-                 ('direct-use', 2, 1, 1, {'fixed_totals': True}), ('electricity', 2, 1, 1, {'fixed_om': True}), ('cogen-topping', 2, 2, 2, {'fixed_totals': True, 'em': 3})],
+                 ('direct-use', 2, 1, 1, {'fixed_totals': True}), ('electricity', 2, 1, 1, {'fixed_om': True}), ('cogen-topping', 2, 2, 2, {'fixed_totals': True, 'em': 3}), ('direct-use', 3, 2, 1, {'fixed_totals': True, 'redrill': True}),
+                 ('electricity', 4, 2, 1, {'redrill': True})],
 }
 META = {
     'explanation': 'Every numeric quantity of a real, fully calculated Model is replaced by a fresh solver variable (each element of each '
@@ -323,6 +324,9 @@ def params_for(kind, L, T, K, x):
         extra.update({'Total O&M Cost': 3.5, 'Annual License Fees Etc': 0.2, 'Tax Relief Per Year': 0.05})
         if x.get('fixed_totals'):
             extra.update({'Total Capital Cost': 40.0, 'One-time Flat License Fees Etc': 1.0})
+    if x.get('redrill'):
+        # a reservoir that cools fast enough for the wells to be redrilled within the lifetime (the report then carries the redrilling lines)
+        extra.update({'Reservoir Model': 4, 'Drawdown Parameter': 0.08, 'Maximum Drawdown': 0.05})
     if x.get('addon'):
         cfg['addon'] = int(x['addon'])
     if x.get('sdac'):
